@@ -67,7 +67,7 @@ theorem ofDigits_append (ds : List Nat) (d : Nat) :
 /-- what is known after `j` calls that produced the digits `ds` -/
 def RootI (n : Nat) (aux : Int → Int) (den X j : Nat) (ds : List Nat) (s : RootSt) : Prop :=
   ds.length = j ∧ (∀ d ∈ ds, d ≤ 9) ∧ (∀ d, ds.head? = some d → 1 ≤ d) ∧
-    ∃ G, Inv n aux den X j (Spec.ofDigits ds) G s
+    ∃ G, RootInv n aux den X j (Spec.ofDigits ds) G s
 
 theorem base_gt_one {n : Nat} (hn : 0 < n) : 1 < 10 ^ n :=
   Nat.one_lt_pow (by omega) (by omega)
